@@ -396,7 +396,7 @@ func TestC03(t *testing.T) {
 		_, pi, _ := g.triple(i)
 		return ev.Case{Kind: g.Fam[pi], N: i, In: string(b)}
 	})
-	c.rec.Require("family_tautology", "family_union", "family_stacked", "family_function", "family_comment_truncation", "family_combined", "at_least_200_fingerprints")
+	c.rec.Require("family_tautology", "family_union", "family_stacked", "family_function", "family_comment_truncation", "family_combined", "family_folding_noise", "at_least_200_fingerprints")
 	for i := range passModes {
 		c.rec.Require(fmt.Sprintf("first_firing_pass_%d_%s", i, modeName(passModes[i])))
 	}
